@@ -693,6 +693,13 @@ class Engine:
                 return self.alloc(st, V(av.t, [z3.If(n > 0, n, 0)] + arrs))
         if isinstance(op, ast.Add) and isinstance(av, V) and isinstance(bv, V) and isinstance(av.t, Ty.Tuple) and isinstance(bv.t, Ty.Tuple):
             return Ty.mk_tuple(Ty.split(av.t, av.c) + Ty.split(bv.t, bv.c))
+        if isinstance(op, ast.Add) and isinstance(av, V) and isinstance(bv, V) and isinstance(av.t, Ty.List) and isinstance(bv.t, Ty.List) and len(av.c) == len(bv.c):
+            # list (or string) concatenation: a new list
+            if len(av.c) == 2 and isinstance(av.t.e, type(Key)):
+                return self.concat_lists(st, [av, bv])
+            q = z3.Int("cat!q")
+            arrs = [z3.Lambda([q], z3.If(q < av.c[0], x[q], y[q - av.c[0]])) for x, y in zip(av.c[1:], bv.c[1:])]
+            return self.alloc(st, V(av.t, [av.c[0] + bv.c[0]] + arrs))
         if isinstance(av, V) and isinstance(bv, V) and isinstance(av.t, Ty.Set) and isinstance(bv.t, Ty.Set):
             A, B = av.c[0], bv.c[0]
             if isinstance(op, ast.BitOr):
@@ -1144,7 +1151,13 @@ class Engine:
                 return PyConst("<fstring>")
         if not any(isinstance(p, V) for p in parts):
             return PyConst("<fstring>")
-        q = z3.Int(f"fs!{node.lineno}.{node.col_offset}")
+        return self.concat_lists(st, parts)
+
+    def concat_lists(self, st, parts):
+        """Concatenation of single-component lists (V) and literal runs (python
+        lists of z3 ints).  The term built depends only on the pieces, so the
+        same concatenation written as an f-string or with `+` is the same term."""
+        q = z3.Int("cat!q")
         total = z3.IntVal(0)
         body = z3.IntVal(0)
         pieces = []
